@@ -238,10 +238,11 @@ impl Color3f<Rgb> {
         };
         let h = h / 6.0;
         let l = (max + min) / 2.0;
-        let s = if l == 0.0 || l == 1.0 {
+        let s = if d == 0.0 || l == 0.0 || l == 1.0 {
             0.0
         } else {
-            d / (1.0 - f32::abs(2.0 * l - 1.0))
+            // Rounding may push the quotient above one, or the divisor to zero
+            (d / (1.0 - f32::abs(2.0 * l - 1.0))).min(1.0)
         };
 
         for ch in [h, s, l] {
